@@ -11,5 +11,5 @@ CONSTANTS
   Combos = FALSE
   HandsAll = TRUE
   Bug = "noclose"
-PROPERTIES C05_Terminates C01_CallsEndOnBreak
+PROPERTIES C01_CallsEndOnBreak
 CHECK_DEADLOCK FALSE
